@@ -51,7 +51,7 @@ class Check(common.Check):
     THEOREMS = ['Sc3Verif.C12.' + t for t in (
         'secs_beats_inverse', 'beats_advance_at_tempo', 'tempo_change_continuous', 'tempo_change_domain',
         'etempo_change_continuous', 'beats_set_continuous', 'ntog_least', 'ntog_total', 'ntog_quant0',
-        'play_quant_schedules_there', 'bars_beats_inverse', 'next_bar_ge', 'next_bar_current_ge',
+        'play_quant_schedules_there', 'other_routine_keeps_its_beat', 'bars_beats_inverse', 'next_bar_ge', 'next_bar_current_ge',
         'bar_and_beat_in_bar', 'meter_change_rebase', 'init_wf', 'wf_history', 'wfm_history',
         'wait_resumes_after_delta', 'routine_timeline')]
     N_QUICK = 600
@@ -168,6 +168,9 @@ class Check(common.Check):
             else:
                 ops.append('q ' + rng.choice(['beats', 'tempo', 'beatdur', 'ebeats', 'bar', 'bar', 'bib', 'bib']))
         c = {'init': ' '.join(init), 'start': start, 'ops': ops}
+        if rng.random() < 0.5:        # a second routine on the same clock
+            c['ticker'] = {'d': fq(Fraction(rng.choice([1, 1, 2, 3, 5, 3, 6]), rng.choice([1, 2, 4]))),
+                           'n': rng.randint(3, 12)}
         if approx:
             c['approx'] = True
         return c
@@ -188,6 +191,8 @@ class Check(common.Check):
             lines.append('reset')
             lines.append(f"init {c['init']} {c.get('start', '0')}")
             lines.extend(c['ops'])
+            if c.get('ticker'):
+                lines.append(f"ticks {c['ticker']['d']} {c['ticker']['n']}")
         out, err = common.run_driver('Sc3Verif/C12/Driver.lean', lines)
         if out is None:
             raise RuntimeError('driver failed: ' + err)
@@ -209,6 +214,11 @@ class Check(common.Check):
             return None if io[0] == mo[0] else {'impl': io[0], 'model': mo[0], 'at': 'init'}
         approx = bool(case.get('approx'))
         tainted = False
+        if case.get('ticker'):
+            ta, tb = io[-1].split()[1:], mo[-1].split()[1:]
+            io, mo = io[:-1], mo[:-1]
+            if len(ta) != len(tb) or not all(x == y or (approx and close(F(x), F(y), TOL)) for x, y in zip(ta, tb)):
+                return {'at': 'ticks', 'impl': ta, 'model': tb}
         for k, (a, b) in enumerate(zip(io, mo)):
             if a == b:
                 continue
@@ -239,6 +249,17 @@ class Check(common.Check):
         if prev is None:
             return None
         wake = prev['beats']
+        if case.get('ticker'):
+            # every routine on the clock is woken at the beat it was scheduled for
+            d, n = F(case['ticker']['d']), case['ticker']['n']
+            got = out[-1].split()[1:]
+            out = out[:-1]
+            want = [prev['beats'] + k * d for k in range(n)]
+            if len(got) != n or any(not close(F(g), w, tol) for g, w in zip(got, want)):
+                k = next((i for i, (g, w) in enumerate(zip(got, want)) if not close(F(g), w, tol)), min(len(got), n))
+                return {'what': f'second routine yielding {float(d)} beats: wake-up #{k} read beat '
+                                f'{got[k] if k < len(got) else "none"}, scheduled for beat {float(want[k]) if k < n else "-"}'
+                                f' ({len(got)} of {n} wake-ups)', 'signature': 'tempo:other-routine'}
 
         def bad(k, law, what):
             return {'what': f'op #{k} `{lines[k]}` → {out[k]}: {what}', 'signature': f'tempo:{law}', 'index': k}
@@ -246,6 +267,12 @@ class Check(common.Check):
         def near_int(q):
             return abs(q - round(q)) <= Fraction(1, 10 ** 7)
 
+        if len(lines) > 1 and not lines[1].startswith('wait'):
+            _, first = parse(out[1])
+            if first is not None and not close(first['now'], prev['now'], tol if approx else Fraction(0)):
+                return {'what': f'the routine played with quant 0 at {float(prev["now"])} s (beat {float(prev["beats"])}) '
+                                f'first ran at {float(first["now"])} s (beat {float(first["beats"])}): play() with quant 0 '
+                                f'must schedule at the current beat', 'signature': 'tempo:play-quant0'}
         for k in range(1, len(lines)):
             op = lines[k].split()
             res, cur = parse(out[k])
